@@ -737,12 +737,18 @@ func RuleDN1(c *Ctx) {
 					return true
 				}
 				for ai, a := range call.Args {
-					u, ok := ast.Unparen(a).(*ast.UnaryExpr)
-					if !ok || u.Op != token.AND {
-						continue
+					// the address of the text, or the text itself (the helper then stores the
+					// address of its own copy: the same characters)
+					byValue := false
+					var id *ast.Ident
+					if u, ok := ast.Unparen(a).(*ast.UnaryExpr); ok && u.Op == token.AND {
+						id, _ = ast.Unparen(u.X).(*ast.Ident)
+					} else if vid, ok := ast.Unparen(a).(*ast.Ident); ok {
+						if b, isB := sinfo.TypeOf(vid).Underlying().(*types.Basic); isB && b.Info()&types.IsString != 0 {
+							id, byValue = vid, true
+						}
 					}
-					id, ok := ast.Unparen(u.X).(*ast.Ident)
-					if !ok {
+					if id == nil {
 						continue
 					}
 					idx := paramIndexOf(sinfo, sfd, sinfo.ObjectOf(id))
@@ -774,7 +780,15 @@ func RuleDN1(c *Ctx) {
 								continue
 							}
 							nStores++
-							if rid, ok := ast.Unparen(as.Rhs[i]).(*ast.Ident); ok && sinfo.ObjectOf(rid) == q && (textIdx < 0 || textIdx == idx) {
+							rhs := ast.Unparen(as.Rhs[i])
+							if byValue {
+								if u, ok := rhs.(*ast.UnaryExpr); ok && u.Op == token.AND {
+									rhs = ast.Unparen(u.X)
+								} else {
+									rhs = nil
+								}
+							}
+							if rid, ok := rhs.(*ast.Ident); ok && sinfo.ObjectOf(rid) == q && (textIdx < 0 || textIdx == idx) {
 								textIdx = idx
 							} else {
 								okStore = false
